@@ -109,9 +109,9 @@ theorem step_keeps_call {s s' : State} {l : Label} {c j : Nat} {cn : Conn} {k : 
       exact same { cn with pending := false }
         (by show (s.conns.map _)[c]? = _; rw [List.getElem?_map, hc]; rfl) hk rfl
     · cases h
-  case issue c' chunks =>
+  case issue c' chunks req =>
     obtain ⟨cn0, hc0, _, rfl⟩ := updConn_some h
-    rcases getElem?_set_cases (i := c') (a := { cn0 with calls := cn0.calls ++ [Call.new chunks] }) hc
+    rcases getElem?_set_cases (i := c') (a := { cn0 with calls := cn0.calls ++ [Call.new chunks req] }) hc
       with ⟨rfl, hs⟩ | ⟨_, hs⟩
     · have : cn0 = cn := by rw [hc0] at hc; exact Option.some.inj hc
       subst this
@@ -138,6 +138,8 @@ theorem step_keeps_call {s s' : State} {l : Label} {c j : Nat} {cn : Conn} {k : 
   case hsDone c' => exact viaConn h (fun _ => rfl) (fun _ => rfl)
   case final c' => exact viaConn h (fun _ => rfl) (fun _ => rfl)
   case permit c' j' =>
+    exact viaCall h (fun x _ hx => ⟨hx, id, rfl, ⟨[], by simp⟩, Nat.le_refl _⟩)
+  case reqSend c' j' =>
     exact viaCall h (fun x _ hx => ⟨hx, id, rfl, ⟨[], by simp⟩, Nat.le_refl _⟩)
   case cancel c' j' =>
     obtain ⟨cn', k', a, b, d, e⟩ := track_updCall h hc hk
